@@ -625,6 +625,49 @@ func c06Case(rt *rapid.T, rec *vh.Recorder) {
 	rec.Case(set.Describe()+" | "+strings.Join(e.steps, " ; "), nontrivial, cls...)
 }
 
+// c06DictTraining drives ArchiveStreamWriter's own dictionary training: more than maxSamples
+// (1000) snappy chunks queued, then a dictionary is built, the queue re-compressed with zstd and
+// later chunks converted on arrival (the GC / pull path into an archive).
+func c06DictTraining(rt *rapid.T, rec *vh.Recorder) {
+	var cl verifCleanup
+	defer cl.run()
+	dir, rm := vh.ScratchDir(rt, "c06d-")
+	cl.add(rm)
+	n := rapid.IntRange(maxSamples-3, maxSamples+120).Draw(rt, "n")
+	set := vc.NewSet()
+	set.Prefixes = vc.GenPrefixPool(rt, "pool")
+	sm := &verifSM{rapid.Uint64().Draw(rt, "contentSeed")}
+	for i := 0; i < n; i++ {
+		var data []byte
+		if sm.intn(3) == 0 {
+			data = vc.RandBytes(sm.next(), 8+sm.intn(60))
+		} else {
+			data = vc.CompBytes(sm.next()%5, 40+sm.intn(200)) // similar chunks: a dictionary pays off
+		}
+		data = append(data, byte(i), byte(i>>8), byte(i>>16))
+		c := vc.Chunk{Data: data, Kind: "small"}
+		if sm.intn(10) < 7 {
+			c.Addr = vc.ForgeAddr(set.Prefixes[sm.intn(len(set.Prefixes))], uint64(i), uint32(sm.intn(3)))
+		} else {
+			c.Addr, c.Genuine = hash.Of(data), true
+		}
+		set.Add(c)
+	}
+	e := &c06Env{rt: rt, ctx: context.Background(), dir: dir, stats: NewStats(), cl: &cl, classes: map[string]bool{}}
+	e.ftp = newFSTablePersister(dir, NewUnlimitedMemQuotaProvider(), rapid.Bool().Draw(rt, "mmapArchiveIndexes")).(*fsTablePersister)
+	u := e.buildWithWriter("big", set.Chunks, true, 0)
+	if u == nil {
+		rt.Fatalf("no archive was produced for %d chunks", len(set.Chunks))
+	}
+	e.verify(u, set, set.Absents(rt, "abs", 40, false))
+	trained := len(set.Chunks) >= maxSamples
+	cls := "below_training_threshold"
+	if trained {
+		cls = "dictionary_trained_by_writer"
+	}
+	rec.Case(fmt.Sprintf("dict-training n=%d %s", len(set.Chunks), strings.Join(e.steps, " ; ")), trained && set.MaxRun() >= 2, cls)
+}
+
 func TestVerif_C06(t *testing.T) {
 	rec := vh.NewRecorder("C06", "roundtrip", "exploration", c06Rule,
 		"zero-length chunks are not generated: memTable.addChunk, tableWriter.addChunk and CmpChunkTableWriter.AddChunk panic by design (\"NBS blocks cannot be zero length\"); the empty chunk is NBS' absent value",
@@ -634,4 +677,7 @@ func TestVerif_C06(t *testing.T) {
 		"forged addresses are sound input: no layer below ValueStore re-hashes content; dolt's own archive tests forge addresses the same way (hashWithPrefix)")
 	defer rec.Write(t)
 	vh.Check(t, "roundtrip", 260, 1200, func(rt *rapid.T) { c06Case(rt, rec) })
+	rec2 := vh.NewRecorder("C06", "dict_training", "exploration", "1000+-120 small chunks (forged colliding and genuine addresses, mostly mutually similar contents) written as snappy chunks into one ArchiveStreamWriter so that the writer trains its own zstd dictionary after maxSamples chunks; the archive is verified with the full read surface. Non-trivial: the threshold was crossed and a prefix run >= 2 exists.")
+	defer rec2.Write(t)
+	vh.Check(t, "dict_training", 4, 12, func(rt *rapid.T) { c06DictTraining(rt, rec2) })
 }
